@@ -208,7 +208,10 @@ func (s *stream) reopenStream(vbID uint16) {
 }
 
 func (s *stream) listenEnd(endContext models.DcpStreamEndContext) {
-	if s.streamEndNotSupportedData != nil && s.streamEndNotSupportedData.ending {
+	// an end that answers our own close of the streams (serial closing) is not the end of the session: it must
+	// not signal "finished by end events", whoever closes the streams signals "finished by close" itself
+	closing := s.streamEndNotSupportedData != nil && s.streamEndNotSupportedData.ending
+	if closing {
 		<-s.streamEndNotSupportedData.queue
 	}
 
@@ -233,7 +236,7 @@ func (s *stream) listenEnd(endContext models.DcpStreamEndContext) {
 		go s.reopenStream(endContext.Event.VbID)
 	} else {
 		activeStreams := s.activeStreams.Add(-1)
-		if activeStreams == 0 && !s.streamFinishedWithCloseCh {
+		if activeStreams == 0 && !s.streamFinishedWithCloseCh && !closing {
 			s.finishStreamWithEndEventCh <- struct{}{}
 		}
 	}
